@@ -66,7 +66,9 @@ class landuse(PseudoNetCDFFile):
 
         self.createDimension('ROW', rows)
         self.createDimension('COL', cols)
-        first_line, =  self._rffile.read('8s')
+        # the first eight bytes of the first record are a key only in
+        # new-style files; in old-style files they are data (not text)
+        first_line = self._rffile.infile.read(8).decode('latin1')
         if first_line == 'LUCAT11 ':
             self.createDimension('LANDUSE', 11)
             self._newstyle = True
